@@ -458,9 +458,11 @@ static void cast(Type *from, Type *to) {
 static bool has_flonum(Type *ty, int lo, int hi, int offset) {
   if (ty->kind == TY_STRUCT || ty->kind == TY_UNION) {
     for (Member *mem = ty->members; mem; mem = mem->next) {
-      // Unnamed bit-fields are padding; they do not take part in
-      // the classification of the eightbyte.
-      if (mem->is_bitfield && !mem->name)
+      // Unnamed bit-fields of a struct are padding; they do not take
+      // part in the classification of the eightbyte. In a union gcc
+      // and clang do classify them (as INTEGER), and so must we to
+      // remain call-compatible.
+      if (mem->is_bitfield && !mem->name && ty->kind == TY_STRUCT)
         continue;
       if (!has_flonum(mem->ty, lo, hi, offset + mem->offset))
         return false;
